@@ -436,7 +436,7 @@ def interface_histories(chk, workdir):
         return raw
 
     variants = [("base", variant()), ("levels [2, 5]", variant(domain__output_levels=[2, 5])), ("levels [5, 2]", variant(domain__output_levels=[5, 2])), ("full output", variant(domain__full_output=True)),
-                ("nx 10", variant(domain__nx=10)), ("halo 0", variant(domain__halo=0.0)), ("no halo given", variant(domain__halo=None)), ("modes (6, 4)", variant(domain__modes=[6, 4])),
+                ("nx 10", variant(domain__nx=10)), ("halo 0", variant(domain__halo=0.0)), ("halo 31 (as many pad columns as halo 20, one more pad row)", variant(domain__halo=31.0)), ("halo 44 (one more pad column than halo 31, as many pad rows)", variant(domain__halo=44.0)), ("no halo given", variant(domain__halo=None)), ("modes (6, 4)", variant(domain__modes=[6, 4])),
                 ("analytic", variant(solver__analytic=True, solver__closure="CONSTANT")), ("single precision", variant(solver__precision="single")), ("another stability", variant(met__mol=80.0))]
     d = os.path.join(workdir, "iface")
     shutil.rmtree(d, ignore_errors=True)
